@@ -36,13 +36,19 @@ fn decode_case(em: &mut Emitter, mode: u8, c: &[u8]) {
             let t2 = if mode == 1 { let mut v = vec![0x23, 0x80]; v.extend_from_slice(c); v.extend_from_slice(&[0, 0]); v } else { tlv(0x23, c) };
             let ctake = Constructed::decode(t2.as_slice().into_source(), mode_of(mode), |cons| BitString::take_from(cons)).is_ok();
             let cskip = Constructed::decode(t2.as_slice().into_source(), mode_of(mode), |cons| BitString::skip_in(cons)).is_ok();
-            (take, skip, ctake, cskip)
+            // the same through a source that shows exactly what was requested
+            let lazy_take = { let mut src = crate::sources::FlexSource::new(&t, crate::sources::Policy::Exact, None);
+                              Constructed::decode(&mut src, mode_of(mode), |cons| BitString::take_from(cons)).ok().map(|b| (b.unused(), b.octet_bytes().to_vec())) };
+            let lazy_skip = { let mut src = crate::sources::FlexSource::new(&t, crate::sources::Policy::Exact, None);
+                              Constructed::decode(&mut src, mode_of(mode), |cons| BitString::skip_in(cons)).is_ok() };
+            let lazy_same = lazy_take == take.as_ref().map(|b| (b.unused(), b.octet_bytes().to_vec())) && lazy_skip == skip;
+            (take, skip, ctake, cskip, lazy_same)
         });
         match r {
-            Some((take, skip, ctake, cskip)) => {
+            Some((take, skip, ctake, cskip, lazy_same)) => {
                 let exp = ref_accept(mode, c);
                 let mut obs = Ints::new();
-                let mut orc = Oracle::Pass;
+                let mut orc = if lazy_same { Oracle::Pass } else { Oracle::Fail("bit-string-codec-depends-on-how-the-source-delivers".into()) };
                 match &take {
                     Some(bs) => {
                         let oct = bs.octet_bytes();
